@@ -653,6 +653,12 @@ EnvDropCl(s, c) ==
       s2 == DropWeakPtr(s1, MapOf(a))
   IN Emit(s2, RetEv(s2, "dropcl", <<>>))
 
+\* ---- macro operations: several atomic operations in one environment step (deep structures within a small step bound);
+\* they emit exactly the events of their parts
+Chain(s) == [s EXCEPT !.nops = @]     \* continue an environment step without resetting the emitted events
+MLink(s, a, b) == EnvSet(EnvSet(s, a, "s", 1, b), b, "s", 1, a)                   \* a.s1 := b; b.s1 := a
+MWeakTo(s, h, t) == EnvDropW(EnvSetW(EnvDowngrade(s, t), h, 1, t), t)            \* h.w1 := Weak(t), no Weak handle kept
+
 \* callback decisions
 CbId(f) == IF f.x = "action" THEN f.i ELSE f.o
 EnvReturn(s) == LET f == STop(s) IN SPop(Emit(s, [e |-> "cbx", cb |-> f.x, o |-> CbId(f), panic |-> FALSE]))
@@ -757,12 +763,17 @@ ADropCl == /\ "dropcl" \in OPS /\ CLEAN /\ Budget(st) /\ Full(st)
            \* a Cleanable cannot be dropped while its own clean() is running (it is borrowed)
            /\ \E c \in DOMAIN st.cls : (\A i \in DOMAIN st.stack : ~(st.stack[i].k = "op" /\ st.stack[i].x.op = "clean" /\ st.stack[i].x.c = c))
                                          /\ Do(EnvDropCl(Begin(st), c))
+AMacro == /\ "macro" \in OPS /\ Budget(st) /\ Top0
+          /\ \/ \E a \in Objs, b \in Objs : a # b /\ st.roots[a] > 0 /\ st.roots[b] > 0 /\ st.fs[a][1] = 0 /\ st.fs[b][1] = 0
+                                            /\ Do(MLink(Begin(st), a, b))
+             \/ \E h \in Objs, t \in Objs : WEAK /\ NW > 0 /\ st.roots[h] > 0 /\ st.roots[t] > 0 /\ st.fw[h][1] = 0 /\ st.wroots[t] = 0
+                                            /\ Do(MWeakTo(Begin(st), h, t))
 AReturn == /\ st.stack # <<>> /\ CbTop(st) # "closure" /\ Do(EnvReturn([st EXCEPT !.ev = <<>>]))
 AReturnClosure == /\ st.stack # <<>> /\ CbTop(st) = "closure"
                   /\ \E sw \in (IF NW > 0 THEN BOOLEAN ELSE {FALSE}) : Do(EnvReturnClosure([st EXCEPT !.ev = <<>>], sw))
 APanic == /\ st.stack # <<>> /\ st.nfaults < MaxFaults /\ ~Unwinding(st) /\ Do(EnvPanic([st EXCEPT !.ev = <<>>]))
 
-Next == AWNew \/ ARegister \/ AClean \/ ADropCl \/ ASat \/ ANewCyc \/ ASaveW \/ AWProbe \/ ASetCfg \/ AReturnClosure \/ APut \/ ATake \/ ADowngrade \/ AUpgrade \/ AUpgradeF \/ ACloneW \/ ADropW \/ ASetW \/ AClearW \/ ANew \/ AClone \/ ACloneF \/ ADrop \/ ASet \/ AClear \/ AMark \/ ACollect \/ AUnwrap \/ ADropVal \/ AFAgain \/ AReturn \/ APanic
+Next == AMacro \/ AWNew \/ ARegister \/ AClean \/ ADropCl \/ ASat \/ ANewCyc \/ ASaveW \/ AWProbe \/ ASetCfg \/ AReturnClosure \/ APut \/ ATake \/ ADowngrade \/ AUpgrade \/ AUpgradeF \/ ACloneW \/ ADropW \/ ASetW \/ AClearW \/ ANew \/ AClone \/ ACloneF \/ ADrop \/ ASet \/ AClear \/ AMark \/ ACollect \/ AUnwrap \/ ADropVal \/ AFAgain \/ AReturn \/ APanic
 
 Init == /\ st = Init0
         /\ mon = Mon(MonInit, ResetEv)
